@@ -202,7 +202,7 @@ def run(rep):
 
     # 1. model check (all Configs) and edge dump (ConfigsEdge / ConfigsEdgeBig) side by side
     with ThreadPoolExecutor(2) as ex:
-        f1 = ex.submit(model_check_variant, COMP, rep, "Configs", False, tlc_workers(6))
+        f1 = ex.submit(model_check_variant, COMP, rep, "Configs" if thorough else "ConfigsQuick", False, tlc_workers(6))
         f2 = ex.submit(model_check_variant, COMP, col, "ConfigsEdgeBig" if thorough else "ConfigsEdge", True, 1)
         res1, _, _ = f1.result()
         res2, edges, inits = f2.result()
